@@ -584,7 +584,10 @@ def c15(tier, seed, F):
             db = TinyFlux(path, auto_index=rnd.random() < 0.5)
             model = []
             compact = h % 2 == 1  # rows written with the compact key prefixes: a needless rewrite would re-spell them
-            for op in op_list(rnd, rnd.randint(2, 7)):
+            ops = op_list(rnd, rnd.randint(2, 7))
+            if h < 4:  # always covered: a few inserts, then updates that match points without changing any
+                ops = ["ins", "insm", "updsame", "updsame_q", "ooo", "updsame"]
+            for op in ops:
                 before = open(path, "rb").read()
                 tmp_before, dir_before = set(os.listdir(td)), set(os.listdir(dbdir))
                 raised = None
